@@ -180,7 +180,17 @@ class World:
         self.smat = list(smat)
         self.seed = seed
         rs = np.random.RandomState(seed)
-        self.cell, _ = gen.make_cell(name)
+        # "crystal~M": the same crystal described by the lattice vectors M a (gen.UNIMODULAR[M]; det -1: left-handed)
+        base, _, mname = name.partition("~")
+        self.cell, _ = gen.make_cell(base)
+        self.smat_full = np.diag(self.smat)
+        self.relabel = mname or None
+        if mname:
+            self.cell0 = self.cell
+            self.M = np.array(gen.UNIMODULAR[mname], dtype=int)
+            self.cell, _qmap, smap = gen.relabelled_cell(self.cell0, self.M)
+            self.smat_full = np.array(smap(np.diag(self.smat)), dtype=int)
+        self._orig = None
         self.ph0 = self.new_phonopy()
         sc = self.ph0.supercell
         self.np_ = len(self.ph0.primitive)
@@ -230,7 +240,11 @@ class World:
         self._fresh = {}
 
     def describe(self):
-        return dict(crystal=self.name, supercell=self.smat, pool_seed=self.seed)
+        d = dict(crystal=self.name, supercell=self.smat, pool_seed=self.seed)
+        if self.relabel:
+            d["description"] = ("unit cell of gen.make_cell(%r) relabelled with gen.relabelled_cell(cell, gen.UNIMODULAR[%r]) (det %+d), supercell matrix %s"
+                                % (self.name.partition("~")[0], self.relabel, int(round(np.linalg.det(self.M))), self.smat_full.tolist()))
+        return d
 
     FSF = 1.1
     GVQ = 1e-4
@@ -239,12 +253,12 @@ class World:
         import warnings
 
         if fsf == "gv":   # constructed with group_velocity_delta_q
-            return gen.make_phonopy(self.cell, np.diag(self.smat), pmat="P", group_velocity_delta_q=self.GVQ)
+            return gen.make_phonopy(self.cell, self.smat_full.copy(), pmat="P", group_velocity_delta_q=self.GVQ)
         if fsf is True:   # the deprecated constructor option
             with warnings.catch_warnings():
                 warnings.simplefilter("ignore")
-                return gen.make_phonopy(self.cell, np.diag(self.smat), pmat="P", frequency_scale_factor=self.FSF)
-        return gen.make_phonopy(self.cell, np.diag(self.smat), pmat="P")
+                return gen.make_phonopy(self.cell, self.smat_full.copy(), pmat="P", frequency_scale_factor=self.FSF)
+        return gen.make_phonopy(self.cell, self.smat_full.copy(), pmat="P")
 
     # ---- evaluation of the model's value terms with the real routines
     def fc_term(self, t):
@@ -330,6 +344,60 @@ class World:
         else:
             raise common.Broken("model-term", "NAC term with tag %d" % tag)
         self._memo[key] = r
+        return r
+
+    # ---- the same crystal in its original description (worlds "crystal~M" only)
+    def original_frequencies(self, fc, nac, masses):
+        """frequencies at the same Cartesian q-points of a fresh object on the ORIGINAL lattice vectors, given the same
+        Cartesian force constants between the same atom pairs, the same Born charges / dielectric tensor and masses.
+        None for compact force constants (their rows are tied to each description's choice of primitive atoms)."""
+        fc = np.asarray(fc)
+        if fc.shape[0] != fc.shape[1]:
+            return None
+        if self._orig is None:
+            p0 = gen.make_phonopy(self.cell0, np.diag(self.smat), pmat="P")
+            s0, s1 = p0.supercell, self.ph0.supercell
+            inv0 = np.linalg.inv(s0.cell)
+
+            def locate(x, number):
+                """index of the original supercell's atom at Cartesian position x (modulo the supercell lattice)"""
+                d = (x @ inv0)[None, :] - s0.scaled_positions
+                d -= np.rint(d)
+                j = int(np.argmin(np.abs(d).sum(axis=1)))
+                if np.abs(d[j]).max() > 1e-8 or s0.numbers[j] != number:
+                    raise common.Broken("harness", "supercell atoms of the relabelled description do not map onto those of the original one")
+                return j
+
+            perm = [locate(x, z) for x, z in zip(s1.positions, s1.numbers)]
+            if sorted(perm) != list(range(len(s0))) or list(p0.primitive.numbers) != list(self.ph0.primitive.numbers):
+                raise common.Broken("harness", "atom correspondence between the two descriptions is not a bijection")
+            if abs(abs(self.ph0.unitcell.volume) - abs(p0.unitcell.volume)) > 1e-9 or self.ph0.unitcell.volume * np.linalg.det(self.M) * p0.unitcell.volume <= 0:
+                raise common.Broken("harness", "relabelled cell has the wrong volume / handedness")
+            # the dynamical matrix reads the rows of the primitive cell's atoms only, and each description has its own choice of
+            # these (they differ by lattice translations): row p2s0[k] of the original = row p2s1[k] of this one, translated
+            rows = []
+            for k, (i0, i1) in enumerate(zip(p0.primitive.p2s_map, self.ph0.primitive.p2s_map)):
+                t = s0.positions[i0] - s1.positions[i1]
+                rows.append((int(i0), int(i1), [locate(x + t, z) for x, z in zip(s1.positions, s1.numbers)]))
+            self._rows = rows
+            self._orig = (np.array(perm), QS @ np.linalg.inv(self.M.T))    # qmap(q0) = QS
+        perm, q0 = self._orig
+        key = ("orig", fc.tobytes(), None if nac is None else (np.asarray(nac["born"]).tobytes(), np.asarray(nac["dielectric"]).tobytes(),
+               float(nac["factor"]), nac.get("method", "gonze")), np.asarray(masses).tobytes())
+        if key in self._fresh:
+            return self._fresh[key]
+        p = gen.make_phonopy(self.cell0, np.diag(self.smat), pmat="P")
+        fc0 = np.zeros(fc.shape, dtype="double", order="C")
+        fc0[np.ix_(perm, perm)] = fc
+        for i0, i1, cols in self._rows:
+            fc0[i0, cols] = fc[i1]
+        p.masses = np.array(masses)
+        p.force_constants = fc0
+        if nac is not None:
+            p.nac_params = _copy.deepcopy(nac)
+        p.run_qpoints(q0)
+        r = p.qpoints.frequencies.copy()
+        self._fresh[key] = r
         return r
 
     # ---- a freshly constructed object
@@ -600,6 +668,18 @@ def run_impl(w, ops, viol, fsf=False):
                     # ---- the property itself: a freshly constructed object answers alike
                     fr = w.fresh(ph.force_constants, ph.nac_params, ph.masses, what == "gv", fsf)
                     bad = not close(out[1], fr[0], TOL) or (what == "gv" and not close(out[2], fr[1], 1e-6))
+                    if w.relabel and what == "freq" and fsf is not True:
+                        # the fresh object may also be constructed on other lattice vectors of the same structure
+                        f0 = w.original_frequencies(ph.force_constants, ph.nac_params, ph.masses)
+                        if f0 is None:
+                            viol("Phonopy.run_qpoints", "hook-unavailable", "compact force constants: no comparison between descriptions", si)
+                        elif not close(fr[0], f0, TOL):
+                            viol("Phonopy.run_qpoints", "description-dependent",
+                                 "a fresh object on the relabelled lattice vectors (%s, unit-cell volume %.4g) and a fresh object on the original lattice vectors, given the same "
+                                 "Cartesian force constants, NAC parameters and masses, differ by %.3g THz at the same Cartesian q-points (dynamical matrix %s)" % (
+                                     w.relabel, w.ph0.unitcell.volume, float(np.abs(fr[0] - f0).max()), type(ph.dynamical_matrix).__name__), si)
+                        else:
+                            viol("Phonopy.run_qpoints", "descriptions-agree", "", si)
                     if what == "gv" and gv_config(ph) != fr[2] and not tainted and fsf is not True:
                         viol("Phonopy.run_qpoints(with_group_velocities)", "gv-configuration-differs",
                              "hidden group-velocity configuration %r differs from that of a fresh object %r" % (gv_config(ph), fr[2]), si)
@@ -759,7 +839,7 @@ def run_impl(w, ops, viol, fsf=False):
             dmn = None
             if cls != "plain":
                 dmn = dict(born=dm.born, dielectric=dm.dielectric_constant,
-                           factor=dm.nac_factor * ph.primitive.volume / (4.0 * np.pi),
+                           factor=dm.nac_factor * abs(ph.primitive.volume) / (4.0 * np.pi),
                            method="wang" if cls == "wang" else "gonze")
             dg["dm"] = dict(cls=cls, fc=dm.force_constants, nac=dmn, gonze=gz, same=dm.force_constants is ph.force_constants)
         gvo = ph.group_velocity
@@ -1648,6 +1728,29 @@ def main(run):
         word = ["qgv"] + sw + ["qgv"]
         cases.append((w, expand(pre, word, syms_gv), "gv-switch", tuple(word), False))
         cases.append((w, expand(pre, word, syms_gv), "gv-switch-delta_q", tuple(word), "gv"))
+    # ---- description invariance: the same histories on a LEFT-HANDED description of a crystal (own random stream, so
+    # that the other histories of a seed stay what they were); every frequency query is also compared with a fresh
+    # object on the original lattice vectors at the same Cartesian q-points
+    import random as _random
+
+    rrng = _random.Random(15015 + 7919 * run.seed)
+    det_minus = [m for m, M in sorted(gen.UNIMODULAR.items()) if round(np.linalg.det(np.array(M))) == -1]
+    others = [m for m in sorted(gen.UNIMODULAR) if m not in det_minus]
+    rel_worlds = [World("%s~%s" % (rrng.choice(["triclinic", "cscl"]), rrng.choice(det_minus)), [1, 1, 2], 53 + run.seed)]
+    if thorough:
+        rel_worlds += [World("cscl~%s" % m, [1, 1, 2], 59 + run.seed) for m in det_minus + others] + [World("triclinic~shear", [1, 1, 2], 61 + run.seed)]
+    for w in rel_worlds:
+        _WORLDS[(w.name, tuple(w.smat), w.seed)] = w
+        for cls in ("plain", "wang", "gl"):
+            symop = rrng.choice([("sym", 1), ("sym", 2), ("symsg",), ("cut", 1)])
+            ops = list(prefix_for(cls)) + [("q", "freq"), ("q", "gv"), symop, ("q", "freq"), ("q", "gv"), ("q", "mesh"), ("q", "band"), ("q", "tp"), ("q", "dos"), ("q", "fc")]
+            cases.append((w, ops, "relabelled-description", None, False))
+            for _ in range(8 if thorough else 1):
+                pre = prefix_for(cls)
+                syms_r = symbols(cls, len(pre), full=False)
+                word = tuple(rrng.choice(sorted(syms_r)) for _ in range(rrng.randint(2, 5)))
+                cases.append((w, expand(pre, word, syms_r), "relabelled-description", word, False))
+    run.cov["relabelled_worlds"] = [w.describe() for w in rel_worlds]
     run.cov["exhaustive_words"] = sum(1 for c in cases if c[2].startswith("exh"))
     run.cov["exhaustive"] = False
 
@@ -1673,7 +1776,7 @@ def main(run):
 
     # conditions on hidden state / representation are counted, not judged (the correspondence with the model and the
     # end-effect oracles decide): private GroupVelocity configuration, nested containers shared with a caller's dict
-    OBSERVATIONS = {"gv-configuration-differs", "caller-container-shared", "hook-unavailable"}
+    OBSERVATIONS = {"gv-configuration-differs", "caller-container-shared", "hook-unavailable", "descriptions-agree"}
     found = {}  # (site, class) -> first (world, ops, what, step)
     nsteps = nbad = 0
     for (w, ops, tag, word, fsf), (idx, hits, mis), line, ml in zip(cases, results, lines, outl):
